@@ -165,7 +165,10 @@ pub struct Ctx {
     pub canon: Option<String>,
     /// optional rendering of the case for `samples`
     pub sample: Option<Value>,
+    pub precondition_notes: Vec<String>,
 }
+
+static PRECONDITION_PRINTS: std::sync::atomic::AtomicUsize = std::sync::atomic::AtomicUsize::new(0);
 
 impl Ctx {
     pub fn label(&mut self, l: impl Into<String>) {
@@ -192,6 +195,17 @@ impl Ctx {
                 detail: detail.into(),
             });
         }
+    }
+    /// Something the HARNESS relies on but the property does not demand (e.g. "a perfectly valid upload
+    /// is accepted" under a statement that only says when data must NOT be stored) did not hold: the
+    /// case cannot be judged. Counted under the label `inconclusive_precondition/<sig>`; never a
+    /// violation. A section with > 20 % inconclusive cases makes the run exit 2.
+    pub fn precondition_failed(&mut self, sig: impl Into<String>, detail: impl Into<String>) {
+        let sig = sig.into();
+        if self.precondition_notes.len() < 4 {
+            self.precondition_notes.push(format!("{sig}: {}", detail.into()));
+        }
+        self.labels.push(format!("inconclusive_precondition/{sig}"));
     }
     /// returns `cond` so that callers can bail out of a step
     pub fn check(&mut self, cond: bool, sig: &str, detail: impl FnOnce() -> String) -> bool {
@@ -663,6 +677,11 @@ impl Report {
             for l in &ctx.labels {
                 *stats.classes.entry(l.clone()).or_default() += 1;
             }
+            for n in &ctx.precondition_notes {
+                if PRECONDITION_PRINTS.fetch_add(1, Ordering::Relaxed) < 6 {
+                    eprintln!("[{} {}] harness precondition did not hold (case not judged, NOT a violation): {}", self.cfg.prop, sec.name, one_line(n, 300));
+                }
+            }
             if ctx.nontrivial {
                 let h = match &ctx.canon {
                     Some(c) => stable_hash(c),
@@ -1096,7 +1115,7 @@ impl Report {
             let inconclusive: u64 = s.classes.iter().filter(|(k, _)| k.starts_with("inconclusive")).map(|(_, v)| *v).sum();
             if s.evaluations >= 20 && inconclusive * 5 > s.evaluations {
                 eprintln!(
-                    "[{}] section {}: {} of {} cases were inconclusive (timeouts): the run is inconclusive",
+                    "[{}] section {}: {} of {} cases were inconclusive (timeouts or harness preconditions, see the inconclusive* classes in the evidence): the run is inconclusive",
                     self.cfg.prop, s.name, inconclusive, s.evaluations
                 );
                 std::process::exit(2);
